@@ -240,7 +240,7 @@ def queries(tier):
         qs.append(glob('global2', 2, list(P(['or', 'and'], repeat=2)), None, [[0]], 600, split=['ra0', 'ra1']))
     else:
         qs.append(glob('global2', 2, list(P(['or', 'and', 'defense'], repeat=2)), None, [[], [0, 1]], 1500, split=['ra0', 'ra1']))
-        qs.append(glob('global3', 3, [('or', 'and', 'and'), ('and', 'and', 'or')], 2, [[0, 1]], 1700, split=['ra0', 'ra1', 'ra2'], nodbl=True, nnew=2))
+        qs.append(glob('global3', 3, [('or', 'and', 'and'), ('and', 'and', 'or')], 2, [[0, 1]], 1700, split=['ra0', 'ra1', 'ra2'], nodbl=True, nnew=1))
     for ts in P(['defense', 'or', 'exist'], repeat=2):
         if 'defense' not in ts:
             continue
